@@ -1,5 +1,15 @@
 (* Extraction of the render engine (ExtrOcamlBasic only; N, positive, nat and Z stay Coq datatypes). *)
 Require Extraction.
 Require Import ExtrOcamlBasic.
+From Coq Require Import NArith ZArith.
 From Verif Require Import Bytes Facts_render RendererM TCalcM TSrcM RunLoopM.
-Extraction "render_model.ml" r_op r0 w0 mkShown is_fault op_ok pathEscape queryEscape path_escape_quoted_bytes path_escape_unquoted_bytes query_escape_bytes build_and_run harness_conv mkMacro mkImport mkFile vm_run mkP gen_OpAdd gen_OpAddr gen_OpIndex gen_OpIndexRef gen_OpSetSlice gen_OpAppendSlice gen_OpCallIndirect gen_OpCallNative gen_OpClose gen_OpConvert gen_OpDelete gen_OpMapIndex gen_OpMapIndexAny gen_OpDivInt gen_OpDiv gen_OpRemInt gen_OpRem gen_OpGo gen_OpIf gen_OpIndexString gen_OpMakeChan gen_OpMakeSlice gen_OpPanic gen_OpSend gen_OpSetMap gen_OpSlice gen_OpStringSlice gen_OpReturn gen_OpCallMacro gen_OpShow gen_OpText.
+(* the show functions (C05): imported after the renderer models so that their names keep their spelling *)
+From Verif Require Import ShowTree Facts_show ShowTypesM ShowJsonM ShowClassM.
+(* the show functions as write programs (C13) *)
+From Verif Require Import WriteProgM.
+(* the reference decoder of URL attributes and the query position rule (C07) *)
+From Verif Require Import UrlRefM.
+Extraction "render_model.ml" r_op r0 w0 mkShown is_fault op_ok pathEscape queryEscape path_escape_quoted_bytes path_escape_unquoted_bytes query_escape_bytes build_and_run harness_conv mkMacro mkImport mkFile vm_run mkP gen_OpAdd gen_OpAddr gen_OpIndex gen_OpIndexRef gen_OpSetSlice gen_OpAppendSlice gen_OpCallIndirect gen_OpCallNative gen_OpClose gen_OpConvert gen_OpDelete gen_OpMapIndex gen_OpMapIndexAny gen_OpDivInt gen_OpDiv gen_OpRemInt gen_OpRem gen_OpGo gen_OpIf gen_OpIndexString gen_OpMakeChan gen_OpMakeSlice gen_OpPanic gen_OpSend gen_OpSetMap gen_OpSlice gen_OpStringSlice gen_OpReturn gen_OpCallMacro gen_OpShow gen_OpText
+  show_class N.add N.mul Z.of_N Z.opp
+  show_prog show_view run_shown
+  url_ref_decode query_position.
